@@ -187,6 +187,11 @@ def setter_replay(cls_name, name, kind):
             try:
                 setattr(obj, name, tv)
             except ValueError:
+                # a refused target must leave the shape as it was
+                v_after = np.asarray(obj.vertices, float)
+                if kind in ("nan", "nonpositive") and (v_after.shape != verts0.shape or not np.array_equal(v_after, np.asarray(verts0, float))):
+                    return True, {"class": cls_name, "setter": name, "target": repr(tv), "observed": "ValueError raised, but the shape was changed",
+                                  "vertices_before": np.asarray(verts0, float).tolist(), "vertices_after": v_after.tolist()}
                 continue
             except Exception as e:  # noqa: BLE001
                 return True, {"class": cls_name, "setter": name, "target": tv, "raised": f"{type(e).__name__}: {e}"}
